@@ -18,7 +18,7 @@ RULE = ("(A) pairs of plain trees with overlapping and disjoint keys at depth <=
         "equal load_tree(model-merged tree) into a fresh configuration, and unresolved includes must fail; "
         "non-trivial = merge pair with an overlapping key, or a file case with >= 1 include processed; distinct = "
         "distinct case content")
-REQUIRED = ("file_cases_env_bound_include_fields", "file_cases_tilde_below_startdir", "file_cases_with_format_options", "reloads_after_include_files_rewritten", "startdir_form:rel", "startdir_form:home", "nested_schema_declared_before_includes", "merge_pairs_compared", "merge_purity_checks", "file_cases_compared", "file_cases_nested_include",
+REQUIRED = ("include_field_declared_after_first_use", "file_cases_same_file_included_twice_in_scope", "file_cases_env_bound_include_fields", "file_cases_tilde_below_startdir", "file_cases_with_format_options", "reloads_after_include_files_rewritten", "startdir_form:rel", "startdir_form:home", "nested_schema_declared_before_includes", "merge_pairs_compared", "merge_purity_checks", "file_cases_compared", "file_cases_nested_include",
             "file_cases_chain", "file_cases_unresolvable_rejected", "file_cases_relative_startdir")
 ASSUMPTIONS = ["documents and include files are produced with the library's own codecs (decided by C04)",
                "the merged tree keeps the include key; included files naming an already processed include field of the "
@@ -130,6 +130,12 @@ def generate(rng, ctx):
             files[first[0]]["inc1"] = v
         else:
             doc["inc1"] = v
+    if layout["root_inc"] >= 2 and isinstance(doc.get("inc0"), str) and isinstance(doc.get("inc1"), str) and rng.random() < 0.5 and (
+            layout["startdir_root"] is None or doc["inc0"].startswith("$DIR")):
+        # a third include field of the scope names the very file of the first one again: it is merged again, over the second
+        doc["inc2"] = doc["inc0"]
+        kinds.append("again")
+    layout["late_inc1"] = layout["root_inc"] >= 2 and rng.random() < 0.3
     if rng.random() < 0.8 or layout["sub_inc"]:
         doc["sub"] = sub_scope()
         if layout["sub_inc"]:
@@ -212,7 +218,7 @@ def _real_startdir(layout, d, name):
     return os.path.join(d, name)
 
 
-def _schema(cc, layout, d):
+def _schema(cc, layout, d, early=False):
     root = cc.Schema(env="VFC18E") if layout.get("env_inc") else cc.Schema()
     root.a = cc.IntField()
     root.b = cc.StringField()
@@ -221,7 +227,9 @@ def _schema(cc, layout, d):
 
     def add_includes():
         root.inc0 = cc.IncludeField(startdir=_startdir(layout, d, layout["startdir_root"]))
-        root.inc1 = cc.IncludeField()
+        # (a schema may be edited between two uses: inc1 starts as a plain file name and becomes an include field)
+        root.inc1 = cc.FilenameField() if (early and layout.get("late_inc1")) else cc.IncludeField()
+        root.inc2 = cc.IncludeField()
 
     def add_sub():
         root.sub = cc.Schema(dynamic=layout["dynamic_sub"])
@@ -274,7 +282,7 @@ def _model_merged(doc, files, layout, d, cwd):
         return None
 
     tree = copy.deepcopy(doc)
-    for key, sdir in (("inc0", layout["startdir_root"]), ("inc1", None)):
+    for key, sdir in (("inc0", layout["startdir_root"]), ("inc1", None), ("inc2", None)):
         name = tree.get(key)
         if name is None:
             continue
@@ -308,7 +316,7 @@ def run_files(case, ctx, res):
     fmt, layout = case["fmt"], case["layout"]
     os.makedirs(os.path.join(d, "inc"), exist_ok=True)
     os.makedirs(os.path.join(d, "other"), exist_ok=True)
-    schema = _schema(cc, layout, d)
+    schema = _schema(cc, layout, d, early=True)
     doc = _resolve(case["doc"], d)
     files = {k: _resolve(v, d) for k, v in case["files"].items()}
     opts = dict(case.get("opts") or {})
@@ -366,6 +374,15 @@ def run_files(case, ctx, res):
 
         shutil.rmtree(homebase, ignore_errors=True)
         return
+    if layout.get("late_inc1"):
+        try:
+            schema().loads(codec.dumps(dummy, {"a": 1, "b": "first use"}), fmt, **opts)
+        except Exception:
+            pass
+        schema.inc1 = cc.IncludeField()
+        res.count("include_field_declared_after_first_use")
+    if "again" in case["inc_kinds"]:
+        res.count("file_cases_same_file_included_twice_in_scope")
     res.count("startdir_form:" + layout.get("startdir_form", "abs"))
     if layout.get("sub_first"):
         res.count("nested_schema_declared_before_includes")
@@ -446,7 +463,7 @@ def _run_files_tail(cc, ctx, res, case, schema, doc, files, layout, d, fmt, blob
         # the validated include paths themselves legitimately differ (home directory vs case directory)
         for snap in (a, b):
             for holder in (snap.values, snap.values.get("sub") or {}, (snap.values.get("sub") or {}).get("deep") or {}):
-                for k in ("inc0", "inc1", "inc"):
+                for k in ("inc0", "inc1", "inc2", "inc"):
                     if isinstance(holder, dict) and k in holder:
                         holder[k] = "<include path>"
     diff = b.diff(a, identity=False)
